@@ -354,8 +354,8 @@ namespace Dune
                  int* displ,
                  [[maybe_unused]] int root) const
     {
-      for (int i=*displ; i<sendDataLen; i++)
-        out[i] = in[i];
+      for (int i=0; i<sendDataLen; i++)
+        out[*displ+i] = in[i];
       return 0;
     }
 
@@ -411,8 +411,8 @@ namespace Dune
     int scatterv (const T* sendData,int* sendDataLen, int* displ, T* recvData,
                   [[maybe_unused]] int recvDataLen, [[maybe_unused]] int root) const
     {
-      for (int i=*displ; i<*sendDataLen; i++)
-        recvData[i] = sendData[i];
+      for (int i=0; i<*sendDataLen; i++)
+        recvData[i] = sendData[*displ+i];
       return 0;
     }
 
@@ -465,8 +465,8 @@ namespace Dune
     template<typename T>
     int allgatherv (const T* in, int sendDataLen, T* out, [[maybe_unused]] int* recvDataLen, int* displ) const
     {
-      for (int i=*displ; i<sendDataLen; i++)
-        out[i] = in[i];
+      for (int i=0; i<sendDataLen; i++)
+        out[*displ+i] = in[i];
       return 0;
     }
 
